@@ -78,6 +78,10 @@ struct VAtomic {
 	T value;
 };
 
+// the relative timeout the library last handed to the condition variable, in nanoseconds (-1: none / an absolute deadline): "waitFor returns false
+// only after its timeout" needs the library to wait at least as long as its caller asked for (time itself is a nondeterministic stub)
+static long long g_vf_wait_ns = -1;
+template <class Rep, class Period> static inline void vf_note_wait(const std::chrono::duration<Rep, Period> & d) { g_vf_wait_ns = (long long)std::chrono::duration_cast<std::chrono::nanoseconds>(d).count(); }
 struct VCondVar {
 	void notify_one() noexcept { vf_cv_notify_one(this); }
 	void notify_all() noexcept { vf_cv_notify_all(this); }
@@ -87,7 +91,8 @@ struct VCondVar {
 		while(! pred()) vf_cv_wait(this, lock.mutex());
 	}
 	template <class Lock, class Rep, class Period, class Predicate>
-	bool wait_for(Lock & lock, const std::chrono::duration<Rep, Period> &, Predicate pred) {
+	bool wait_for(Lock & lock, const std::chrono::duration<Rep, Period> & d, Predicate pred) {
+		vf_note_wait(d);
 		while(! pred()) {
 			if(! vf_cv_wait_for(this, lock.mutex())) return pred();
 		}
@@ -97,11 +102,12 @@ struct VCondVar {
 	// is "whenever the engine decides the timeout fires" (time is a nondeterministic stub)
 	template <class Lock> void wait(Lock & lock) { vf_cv_wait(this, lock.mutex()); }
 	template <class Lock, class Rep, class Period>
-	std::cv_status wait_for(Lock & lock, const std::chrono::duration<Rep, Period> &) { return vf_cv_wait_for(this, lock.mutex()) ? std::cv_status::no_timeout : std::cv_status::timeout; }
+	std::cv_status wait_for(Lock & lock, const std::chrono::duration<Rep, Period> & d) { vf_note_wait(d); return vf_cv_wait_for(this, lock.mutex()) ? std::cv_status::no_timeout : std::cv_status::timeout; }
 	template <class Lock, class Clock, class Duration>
-	std::cv_status wait_until(Lock & lock, const std::chrono::time_point<Clock, Duration> &) { return vf_cv_wait_for(this, lock.mutex()) ? std::cv_status::no_timeout : std::cv_status::timeout; }
+	std::cv_status wait_until(Lock & lock, const std::chrono::time_point<Clock, Duration> &) { g_vf_wait_ns = -1; return vf_cv_wait_for(this, lock.mutex()) ? std::cv_status::no_timeout : std::cv_status::timeout; }
 	template <class Lock, class Clock, class Duration, class Predicate>
 	bool wait_until(Lock & lock, const std::chrono::time_point<Clock, Duration> &, Predicate pred) {
+		g_vf_wait_ns = -1;
 		while(! pred()) {
 			if(! vf_cv_wait_for(this, lock.mutex())) return pred();
 		}
